@@ -322,7 +322,9 @@ def check(pid, tier, seed):
         return path
 
     build_broken = []
-    with Lock():
+    _lk = Lock()
+    _lk.__enter__()
+    try:
         rc, out, finfo = regenerate_facts()
         if rc != 0:
             build_broken.append(("facts", "tools/extract_facts.py", out[-1500:]))
@@ -344,37 +346,39 @@ def check(pid, tier, seed):
                         pass
         rc, mout = make(targets, timeout=3000)
         g = dep_graph()
-    cone_files = cone(g, ["theories/" + cfg["prop_file"]])
-    corr_cone = cone(g, ["theories/" + c for c in cfg.get("corr_files", [])])
-    prop_vo = os.path.join(COQ, "theories", cfg["prop_file"] + "o")
-    prop_built = os.path.exists(prop_vo) and all(
-        os.path.getmtime(prop_vo) >= os.path.getmtime(os.path.join(COQ, f)) for f in cone_files if os.path.exists(os.path.join(COQ, f)))
-    corr_built = all(os.path.exists(os.path.join(COQ, "theories", c + "o")) for c in cfg.get("corr_files", []))
-    if not prop_built:
-        m = re.findall(r'File "\./([^"]+)", line (\d+)[^\n]*\n(?:[^\n]*\n){0,6}?Error:[^\n]*(?:\n[^\n]+){0,8}', mout)
-        errs = re.findall(r'(File "[^"]+", line \d+, characters [\d-]+:\nError:(?:\n?[^\n]+){1,10})', mout)
-        build_broken.append(("proof", cfg["prop_file"], (errs[0] if errs else mout[-2500:])))
-    hyg, nqed = hygiene(sorted(set(cone_files) | set(corr_cone)))
-    for h in hyg:
-        build_broken.append(("hygiene", h, h))
-    assump = {}
-    axioms_seen = set()
-    if prop_built:
-        rc, aout, assump, missing = print_assumptions(pid, cfg)
-        if rc != 0 or missing:
-            build_broken.append(("proof", "Print Assumptions", f"missing={missing}\n{aout[-1500:]}"))
-        allowed = set(cfg.get("allowed_axioms", []))
-        for t, axs in assump.items():
-            for a in axs:
-                axioms_seen.add(a)
-                if a not in allowed:
-                    build_broken.append(("axiom", t, f"theorem {t} depends on non-allowed axiom {a}"))
-    coqchk_out = None
-    if tier == "thorough" and prop_built and cfg.get("coqchk", True):
-        mod = "CKT." + cfg["prop_file"][:-2].replace("/", ".")
-        rc, coqchk_out = sh(["coqchk", "-silent", "-o", "-Q", "theories", "CKT", mod], cwd=COQ, timeout=3000)
-        if rc != 0:
-            build_broken.append(("proof", "coqchk", coqchk_out[-1500:]))
+        cone_files = cone(g, ["theories/" + cfg["prop_file"]])
+        corr_cone = cone(g, ["theories/" + c for c in cfg.get("corr_files", [])])
+        prop_vo = os.path.join(COQ, "theories", cfg["prop_file"] + "o")
+        prop_built = os.path.exists(prop_vo) and all(
+            os.path.getmtime(prop_vo) >= os.path.getmtime(os.path.join(COQ, f)) for f in cone_files if os.path.exists(os.path.join(COQ, f)))
+        corr_built = all(os.path.exists(os.path.join(COQ, "theories", c + "o")) for c in cfg.get("corr_files", []))
+        if not prop_built:
+            m = re.findall(r'File "\./([^"]+)", line (\d+)[^\n]*\n(?:[^\n]*\n){0,6}?Error:[^\n]*(?:\n[^\n]+){0,8}', mout)
+            errs = re.findall(r'(File "[^"]+", line \d+, characters [\d-]+:\nError:(?:\n?[^\n]+){1,10})', mout)
+            build_broken.append(("proof", cfg["prop_file"], (errs[0] if errs else mout[-2500:])))
+        hyg, nqed = hygiene(sorted(set(cone_files) | set(corr_cone)))
+        for h in hyg:
+            build_broken.append(("hygiene", h, h))
+        assump = {}
+        axioms_seen = set()
+        if prop_built:
+            rc, aout, assump, missing = print_assumptions(pid, cfg)
+            if rc != 0 or missing:
+                build_broken.append(("proof", "Print Assumptions", f"missing={missing}\n{aout[-1500:]}"))
+            allowed = set(cfg.get("allowed_axioms", []))
+            for t, axs in assump.items():
+                for a in axs:
+                    axioms_seen.add(a)
+                    if a not in allowed:
+                        build_broken.append(("axiom", t, f"theorem {t} depends on non-allowed axiom {a}"))
+        coqchk_out = None
+        if tier == "thorough" and prop_built and cfg.get("coqchk", True):
+            mod = "CKT." + cfg["prop_file"][:-2].replace("/", ".")
+            rc, coqchk_out = sh(["coqchk", "-silent", "-o", "-Q", "theories", "CKT", mod], cwd=COQ, timeout=3000)
+            if rc != 0:
+                build_broken.append(("proof", "coqchk", coqchk_out[-1500:]))
+    finally:
+        _lk.__exit__()
 
     # ---------------- correspondence ----------------
     meta = None
@@ -390,13 +394,21 @@ def check(pid, tier, seed):
             if rc != 0 or meta is None:
                 corr_error = "harness failed:\n" + hout[-3000:]
             else:
-                with ThreadPoolExecutor(max_workers=int(os.environ.get("CKT_JOBS", "12"))) as ex:
-                    shard_results = list(ex.map(lambda fi: compile_case(outdir, fi), meta["files"]))
+                with Lock():
+                    # another run may have regenerated Facts.v for a different checkout meanwhile: make the
+                    # checker files consistent again (a no-op normally) before evaluating the cases
+                    regenerate_facts()
+                    make(["theories/" + c + "o" for c in cfg.get("corr_files", [])], timeout=3000)
+                    with ThreadPoolExecutor(max_workers=int(os.environ.get("CKT_JOBS", "12"))) as ex:
+                        shard_results = list(ex.map(lambda fi: compile_case(outdir, fi), meta["files"]))
+                    for r in shard_results:
+                        if r["ok"] and r["mismatches"]:
+                            r["all_idx"] = all_false_indices(outdir, r)[:25]
                 for r in shard_results:
                     if not r["ok"]:
                         corr_error = (corr_error or "") + f"case file {r['file']} did not evaluate:\n{r['error']}\n"
                     elif r["mismatches"]:
-                        for idx in all_false_indices(outdir, r)[:25]:
+                        for idx in r.get("all_idx", []):
                             mismatches.append((r, idx))
     # oracle contracts monitored by the harness
     contract_failed = {}
